@@ -1433,10 +1433,10 @@ func (se *SessionExecutor) rollback() (err error) {
 	defer se.txLock.Unlock()
 	se.status &= ^mysql.ServerStatusInTrans
 	for _, pc := range se.txConns {
-		if pc.IsClosed() {
-			continue
+		// a connection the backend closed has nothing to roll back, but its pool slot must still be given back
+		if !pc.IsClosed() {
+			err = pc.Rollback()
 		}
-		err = pc.Rollback()
 		pc.Recycle()
 	}
 
